@@ -41,7 +41,10 @@ def write(mod, total, tier, seed, wall, build_status, nshards):
         'rule': mod.RULE,
         'samples': total.samples or ['(no sample recorded)'],
         'exhaustive': bool(exhaustive),
-        'bounds': getattr(mod, 'BOUNDS', {}).get(tier, ''),
+        'bounds': getattr(mod, 'BOUNDS', {}).get(tier, '') + (
+            '; plus, in both tiers, the cross-cutting sub-lattices added after the independently produced changes (DESIGN.md 8.2: storage '
+            'types, construction routes, histories, header encodings, text forms, ...), each enumerated in full -- their values are '
+            'listed under `axis_marginals` / `extra` of this file as they were visited'),
         'caps_hit': total.caps,
         'distinct_observed_outcomes': len(total.outcomes),
         'outcome_histogram_top': top_outcomes,
